@@ -332,6 +332,10 @@ func genUploadCase(r *rand.Rand) HTTPCase {
 		m[fmt.Sprint(fi)] = ps
 	}
 	mb, _ := json.Marshal(m)
+	if r.Intn(8) == 0 {
+		// a client that mirrors the operation into the URL (for logs or caches): a POST is a POST, its body counts
+		hc.Target = "/graphql?query=%7B+me+%7B+firstName+%7D+%7D&variables=%7B%22f%22%3Anull%7D"
+	}
 	hc.Form = map[string]string{"operations": string(ob), "map": string(mb)}
 	hc.Files = map[string]string{}
 	for fi := 0; fi < nfiles; fi++ {
